@@ -112,6 +112,16 @@ impl fmt::Debug for Word {
     }
 }
 
+#[cfg(feature = "verif")]
+impl Word {
+    pub fn verif_from_syllables(syllables: Vec<Syllable>) -> Self {
+        Self { syllables, americanist: false }
+    }
+    pub fn verif_is_americanist(&self) -> bool {
+        self.americanist
+    }
+}
+
 impl Word {
     pub(crate) fn new(text: String, aliases: &[Transformation]) -> Result<Self, Error>  {
         let mut w = Self { syllables: Vec::new(), americanist: false };
@@ -355,6 +365,7 @@ impl Word {
         if CARDINALS_TRIE.contains_prefix(buffer.as_str()) {
             *i += 1;
             while *i < txt.len() {
+                #[cfg(feature = "verif")] crate::verif::tick(201);
                 let mut tmp = buffer.clone(); tmp.push(self.to_ipa(txt[*i]));
                 if CARDINALS_TRIE.contains_prefix(tmp.as_str()) {
                     buffer.push(self.to_ipa(txt[*i]));
@@ -463,6 +474,7 @@ impl Word {
         let mut sy = Syllable::new();
 
         while i < txt.len() {
+            #[cfg(feature = "verif")] crate::verif::tick(202);
 
             // Primary or Secondary Stress
             if txt[i] == 'ˌ' || txt[i] == 'ˈ' {
@@ -490,6 +502,7 @@ impl Word {
                 if txt[i].is_ascii_digit() {
                     let mut tone_buffer = String::new();
                     while i < txt.len() && txt[i].is_ascii_digit() {
+                        #[cfg(feature = "verif")] crate::verif::tick(203);
                         tone_buffer.push(txt[i]);
                         i+=1;
                     }
@@ -734,6 +747,7 @@ impl Word {
 
             let mut j = 0;
             'outer: while j < syll.segments.len() {
+                #[cfg(feature = "verif")] crate::verif::tick(204);
                 if j != 0 && syll.segments[j] == syll.segments[j-1] {
                     // TODO: Need to skip if we matched length last time
                     buffer.push('ː');
